@@ -58,6 +58,24 @@ enum Det {
 }
 
 fn determinism(db: &Db, q: &Query) -> Det {
+    // any LIMIT/OFFSET not under a total order makes the row set legitimately
+    // configuration dependent; the model cannot always see that (it may
+    // disagree with the engine about the un-limited rows), so decide it
+    // syntactically
+    let mut any_limit = false;
+    {
+        let mut c = q.clone();
+        crate::sql::shrink::visit_query_mut(&mut c, &mut |_| {}, &mut |qq| {
+            if qq.limit.is_some() || qq.offset.is_some() {
+                any_limit = true;
+            }
+        });
+    }
+    let d = determinism_model(db, q);
+    if any_limit && d == Det::Exact { Det::CountOnly } else { d }
+}
+
+fn determinism_model(db: &Db, q: &Query) -> Det {
     match model_expect(db, q, &Dev::default()) {
         ModelSays::Expect(Expect::Rows { .. }, _) => Det::Exact,
         ModelSays::Expect(_, _) | ModelSays::Ambiguous => Det::CountOnly,
@@ -156,7 +174,9 @@ impl DiffCheck {
                 let mut vars = Vec::new();
                 let n = 2 + rng.fork("nvar").usize_below(2);
                 for i in 0..n {
-                    let k = Knobs::draw(&mut rng.fork_idx("knobs", i as u64), self.small_batches);
+                    let mut k = Knobs::draw(&mut rng.fork_idx("knobs", i as u64), self.small_batches);
+                    // the optimizer is C02's dimension, not C03's
+                    k.optimizer = Knobs::reference().optimizer;
                     vars.push((k, draw_sim(&mut rng.fork_idx("sim", i as u64), false)));
                 }
                 ((Knobs::reference(), canonical), vars)
@@ -242,7 +262,20 @@ impl Check for DiffCheck {
                 stats.count(&format!("verdict.reference_{class}"));
                 let mut sc2 = ref_sc.clone();
                 sc2.sessions[0].truncate(stmt + 1);
-                out.push(Violation { property: self.property.into(), class, scenario: sc2, choices: refrep.choices.clone(), session: 0, stmt, expect: Expect::Completes, observed: observe(&refrep, 0, stmt), detail, trace: refrep.trace, aux: None });
+                let mut v = Violation { property: self.property.into(), class, scenario: sc2, choices: refrep.choices.clone(), session: 0, stmt, expect: Expect::Completes, observed: observe(&refrep, 0, stmt), detail, trace: refrep.trace, aux: None };
+                let nsetup = ref_knobs.set_stmts().len() + setup_sql(&tables, chunk).len();
+                if stmt >= nsetup {
+                    // find the body statement by replaying the index computation
+                    let (_, idxs) = build(&ref_knobs, &ref_sim);
+                    if let Some(qi) = idxs.iter().position(|&ix| stmt <= ix) {
+                        let (q, wrap) = &body[qi];
+                        let aux = DiffAux { sql: SqlAux { tables: tables.clone(), views: vec![], query: q.clone(), knobs: ref_knobs.clone(), chunk, dev: Dev::default() }, ref_knobs: ref_knobs.clone(), wrap: wrap.clone() };
+                        if let Some(v1) = rehome(&v, &aux, &ref_sim) {
+                            v = v1;
+                        }
+                    }
+                }
+                out.push(v);
             }
             return out;
         }
@@ -261,7 +294,16 @@ impl Check for DiffCheck {
                 stats.count(&format!("verdict.{class}"));
                 let mut sc2 = sc.clone();
                 sc2.sessions[0].truncate(stmt + 1);
-                out.push(Violation { property: self.property.into(), class, scenario: sc2, choices: rep.choices.clone(), session: 0, stmt, expect: Expect::Completes, observed: observe(&rep, 0, stmt), detail, trace: rep.trace, aux: None });
+                let mut v = Violation { property: self.property.into(), class, scenario: sc2, choices: rep.choices.clone(), session: 0, stmt, expect: Expect::Completes, observed: observe(&rep, 0, stmt), detail, trace: rep.trace, aux: None };
+                // which body statement was in flight?
+                if let Some(qi) = idxs.iter().position(|&ix| stmt <= ix) {
+                    let (q, wrap) = &body[qi];
+                    let aux = DiffAux { sql: SqlAux { tables: tables.clone(), views: vec![], query: q.clone(), knobs: knobs.clone(), chunk, dev: Dev::default() }, ref_knobs: ref_knobs.clone(), wrap: wrap.clone() };
+                    if let Some(v1) = rehome(&v, &aux, &ref_sim) {
+                        v = v1;
+                    }
+                }
+                out.push(v);
                 continue;
             }
             for (qi, (q, wrap)) in body.iter().enumerate() {
